@@ -1,17 +1,7 @@
 /* Scalar kernels: byte assembly (C02 C12 C19), derived header counts (C05). */
 #include "vf_harness.h"
+#include "kernel_contracts.h"
 VF_GHOSTS
-
-/* ---------------------------------------------------------------- c3d::hex2uint */
-unsigned int contract_c3d__hex2uint(struct c3d *self, const char *val, unsigned int len)
-__CPROVER_requires(vf_exc == 0 && len <= 4 && __CPROVER_r_ok(val, 4))
-/*@ C12 C02 : hex2uint.len0 */ __CPROVER_ensures(len == 0 ==> __CPROVER_return_value == 0)
-/*@ C12 C02 : hex2uint.len1 */ __CPROVER_ensures(len == 1 ==> __CPROVER_return_value == VF_U8(val, 0))
-/*@ C12 C02 : hex2uint.len2 */ __CPROVER_ensures(len == 2 ==> __CPROVER_return_value == VF_U16(val, 0))
-/*@ C12 C02 : hex2uint.len3 */ __CPROVER_ensures(len == 3 ==> __CPROVER_return_value == (VF_U16(val, 0) | (VF_U8(val, 2) << 16)))
-/*@ C12 C02 : hex2uint.len4 */ __CPROVER_ensures(len == 4 ==> __CPROVER_return_value == VF_U32(val, 0))
-/*@ C12 C10 : hex2uint.nothrow */ __CPROVER_ensures(vf_exc == 0)
-__CPROVER_assigns();
 
 void h_hex2uint(void)
 {
@@ -21,15 +11,6 @@ void h_hex2uint(void)
   c3d__hex2uint(self, val, len);
   __CPROVER_assert(0, "VACUITY_CANARY");
 }
-
-/* ---------------------------------------------------------------- c3d::hex2int (callee hex2uint by contract) */
-int contract_c3d__hex2int(struct c3d *self, const char *val, unsigned int len)
-__CPROVER_requires(vf_exc == 0 && (len == 1 || len == 2 || len == 4) && __CPROVER_r_ok(val, 4))
-/*@ C12 C02 C17 : hex2int.int8 */ __CPROVER_ensures(len == 1 ==> __CPROVER_return_value == (int)(signed char)val[0])
-/*@ C12 C02 C17 : hex2int.int16 */ __CPROVER_ensures(len == 2 ==> __CPROVER_return_value == (int)(short)(unsigned short)VF_U16(val, 0))
-/*@ C12 C02 : hex2int.int32 */ __CPROVER_ensures(len == 4 ==> __CPROVER_return_value == (int)VF_U32(val, 0))
-/*@ C12 : hex2int.nothrow */ __CPROVER_ensures(vf_exc == 0)
-__CPROVER_assigns();
 
 void h_hex2int(void)
 {
